@@ -38,6 +38,66 @@ def refuted(work):
     return out
 
 
+def _tlc_trace(work, lines, name):
+    p = os.path.join(work, name + ".ndjson")
+    with open(p, "w") as fh:
+        fh.write("\n".join(lines) + "\n")
+    return vlib.run_tlc(SPEC, "TraceStartup", "TraceStartup.cfg", os.path.join(work, "tlc-" + name), files={"startup_trace.ndjson": p}, workers=1, timeout=1500)
+
+
+def validate_trace(res, seed, tier, work, trace_file):
+    """Trace validation proper: the events of all real start-up sequences, file after file, must be a behaviour of Startup.tla's own
+    actions (TraceStartup.tla: one action per line, accepted iff every line is consumed, the invariants hold in every state).
+    A rejected sequence is reported and removed, the rest is validated again.  The binding is demonstrated in every accepted run:
+    a corrupted recorded version and a dropped event must each be rejected at exactly that line."""
+    with open(trace_file) as fh:
+        lines = fh.read().splitlines()
+    total, seqs, rejected = len(lines), sum(1 for x in lines if '"ev":"reset"' in x), 0
+    original = list(lines)
+    r = None
+    for attempt in range(5):
+        r = _tlc_trace(work, lines, "startup-trace")
+        if r["ok"]:
+            break
+        bad = r["distinct"]
+        inv = any("Invariant" in v for v in r["violated"])
+        if inv:
+            bad -= 1
+        bad = max(1, min(bad, len(lines)))
+        start = max(i for i in range(bad) if '"ev":"reset"' in lines[i])
+        end = next((i for i in range(start + 1, len(lines)) if '"ev":"reset"' in lines[i]), len(lines))
+        ev = json.loads(lines[bad - 1])
+        rejected += 1
+        sig = "startup:%s:at-%s" % ("invariant-violated-in-a-real-state" if inv else "trace-rejected", ev["ev"])
+        evs = [json.loads(x) for x in lines[start:end]]
+        brief = [{"ev": e["ev"], "step": e["step"], "app": e["app"]["text"], "stored": e["stored"]["text"], "refused": e["refused"], "force": e["force"]} for e in evs][:60]
+        rp = vlib.save_replay(work, "C08_startup_trace_%d.json" % attempt, {"engine": "crash", "part": "startup-trace", "signature": sig, "seed": seed, "tier": tier,
+                                                                            "checkpoint": evs[0]["checkpoint"]["text"], "events": brief, "line_in_sequence": bad - start})
+        res.mismatch("C08", sig, "the real start-up sequence %d is not a behaviour of Startup.tla: event %d of the sequence (%s, step %d)%s" % (
+            ev["seq"], bad - start, ev["ev"], ev["step"], "; violated: " + ", ".join(r["violated"]) if inv else ""), rp)
+        lines = lines[:start] + lines[end:]
+        if not lines:
+            break
+    if rejected == 0:
+        stores = [i for i, x in enumerate(original) if '"ev":"store"' in x and '"none":false' in x]
+        gates = [i for i, x in enumerate(original) if '"ev":"gate"' in x and '"refused":false' in x]
+        if len(stores) < 4 or len(gates) < 4:
+            raise Infra("too few events for the binding self-test of the start-up trace")
+
+        def corrupt(ls):
+            e = json.loads(ls[stores[2]])
+            e["stored"]["core"] = [e["stored"]["core"][0], e["stored"]["core"][1], e["stored"]["core"][2] + 1]
+            ls[stores[2]] = json.dumps(e)
+
+        for name, mut, want in (("corrupt", corrupt, stores[2] + 1), ("dropped", lambda ls: ls.__delitem__(gates[3]), gates[3] + 1)):
+            ls = list(original[:600])
+            mut(ls)
+            t = _tlc_trace(work, ls, "startup-selftest")
+            if t["ok"] or t["distinct"] != want:
+                raise Infra("binding self-test '%s' of the start-up trace: the damaged trace should be rejected at line %d, TLC consumed %d lines" % (name, want, t["distinct"]))
+    return {"trace_lines": total, "sequences": seqs, "sequences_rejected": rejected, "cmd": r["cmd"] if r else "", "binding_self_test": rejected == 0}
+
+
 def run(res, prop, tier, seed, work):
     mc = vlib.model_check(SPEC, "MCStartup", "MCStartup.cfg", os.path.join(work, "mc-startup"), timeout=600)
     ref = refuted(work)
@@ -65,8 +125,10 @@ def run(res, prop, tier, seed, work):
         sig = "startup:%s" % what
         rp = vlib.save_replay(work, "C08_startup_%d.json" % i, {"engine": "crash", "part": "startup", "signature": sig, "seed": seed, "tier": tier, "record": r}) if i < 30 else ""
         res.mismatch("C08", sig, "start-up sequence %d step %d: the real start-up differs from Startup.tla (%s): %s" % (r["seq"], r["step"], what, json.dumps(brief)), rp)
+    tstats = validate_trace(res, seed, tier, work, os.path.join(out, "startup_trace.ndjson"))
     all_recs = vlib.read_ndjson(recs)
     res.coverage["startup_gate"] = {
+        "trace_validation": tstats,
         "mc": {"module": "MCStartup", "distinct": mc["distinct"], "generated": mc["generated"], "cached": mc["cached"], "liveness_checked": True,
                "constants": "6 versions (0.26.0, 0.27.0-1, -rc.1, -rc.2, 0.27.0, 0.27.1-rc.1), checkpoint 0.27.0-rc.1"},
         "refuted_designs": ref,
